@@ -1,6 +1,9 @@
 import SLE.Driver.Util
 import SLE.Driver.UnifyD
 import SLE.Spec.EVM
+import SLE.Driver.VMD
+import SLE.Driver.LiftD
+import SLE.Driver.SlotOracle
 /-! Oracles for families `pipeline` and `orders` (no model answer: these families are
 oracle-only until the type-checking pipeline is modelled end to end). -/
 namespace SLE.Driver.PipelineD
@@ -62,6 +65,37 @@ def oracleC12 (es : List Entry) : List String :=
 
 def verdictOf (segs : List String) : String := if segs.isEmpty then "ok" else "FAIL " ++ " ;; ".intercalate segs
 
+/-- every value the model machine leaves behind for this program (for attribution only) -/
+def harvestModel (payload : String) : List SLE.SV :=
+  match words payload with
+  | [_, cfgS, hex] =>
+    (match VMD.parseCfg cfgS, hexBytes? hex with
+     | some cfg, some bytes =>
+       (match SLE.Disasm.disasm bytes with
+        | .ok code =>
+          let s := SLE.VM.run cfg code 2000000 (SLE.VM.initVM cfg code)
+          -- `VMState::all_values`: stack, recorded and logged values, memory generations, and
+          -- every storage generation as a `StorageWrite { key, value }`
+          s.stored.flatMap (fun t =>
+            t.d.stack ++ t.d.recorded ++ t.d.logged ++ t.d.memC.flatMap (fun (_, g) => g.map (·.data)) ++
+            t.d.memS.flatMap (fun (_, g) => g.map (·.data)) ++
+            (t.d.stK ++ t.d.stS).flatMap (fun (k, g) => g.map (fun v => SLE.SV.rebuild .storageWrite [] [k, v])))
+        | .error _ => [])
+     | _, _ => [])
+  | _ => []
+
+/-- no storage instruction at all: nothing to harvest for the slot oracle -/
+def harvestModelQuick (payload : String) : Bool :=
+  match hexBytes? ((words payload).getLast?.getD "") with
+  | some bytes => !(bytes.contains 0x54) && !(bytes.contains 0x55)
+  | none => true
+
+/-- C12 with attribution of finding D20 (a mask nested in a narrower mask) -/
+def oracleC12attr (payload : String) (es : List Entry) : List String :=
+  let c12 := oracleC12 es
+  if !c12.isEmpty && (harvestModel payload).any LiftD.liftsToNestedWider
+  then c12.map (fun x => x.replace "C12-entry-" "C12-nested-mask-entry-") else c12
+
 /-- C05 on whole programs: code without any SLOAD / SSTORE instruction has an empty layout -/
 def oracleC05 (payload : String) (es : List Entry) : List String :=
   match hexBytes? ((words payload).getLast?.getD "") with
@@ -72,7 +106,7 @@ def oracleC05 (payload : String) (es : List Entry) : List String :=
     let touches := (List.range bytes.length).any (fun i => (bytes.getD i 0 == 0x54 || bytes.getD i 0 == 0x55) && !(data.contains i))
     if !touches && !es.isEmpty then [s!"C05-storage-free-program-has-slots:0x{natHex (es.headD ⟨0, 0, ""⟩).index}"] else []
 
-def handle (payload impl : String) : String × String :=
+def handle (tbl : Array (Nat × Nat)) (payload impl : String) : String × String :=
   let segs :=
     if impl.startsWith "PANIC" then ["C01-panic:" ++ impl]
     else if impl.startsWith "res=err" then
@@ -80,7 +114,8 @@ def handle (payload impl : String) : String × String :=
          [(if (impl.splitOn "U.StoppedByWatchdog").length > 1 then "C03-analysis-does-not-halt:unification"
            else "C03-analysis-does-not-halt:execution")] else [])
     else match parseLayout impl with
-      | some es => oracleC12 es ++ oracleC05 payload es
+      | some es => oracleC12attr payload es ++ oracleC05 payload es ++
+          (if es.isEmpty && (harvestModelQuick payload) then [] else SlotOracle.check tbl (harvestModel payload) (es.map (·.index)))
       | none => ["unparsable-impl-answer"]
   ("n/a", verdictOf segs)
 
